@@ -89,6 +89,12 @@ MIRRORED = {
     ('michelson/types/bls.py', 'BLS12_381_G1Type', 'to_python_object'): '1e06b3e1c9c8fdce',
     ('michelson/types/bls.py', 'BLS12_381_G2Type', 'to_python_object'): 'd0d43b03f16e4d9e',
     ('michelson/types/base.py', 'MichelsonType', 'from_python_object'): '0c823067a4f59cbf',
+    # ---- extension: try_unpack=True (`blind_unpack` itself is recognised below: repaired / pinned)
+    ('michelson/micheline.py', None, 'micheline_value_to_python_object'): '7f940772836bc667',
+    ('michelson/forge.py', None, 'unforge_address'): '24b7c1cd4e200c82',
+    ('michelson/forge.py', None, 'unforge_public_key'): '74849358039e968a',
+    ('michelson/forge.py', None, 'unforge_chain_id'): '0b5184af09bb5600',
+    ('michelson/forge.py', None, 'unforge_signature'): '0e5801b5504802df',
     ('contract/data.py', 'ContractData', 'decode'): 'e0c5d831d3830454',
     ('contract/data.py', 'ContractData', 'encode'): '6828d651262620a8',
 }
@@ -116,6 +122,13 @@ INHERITS = [
 # generated names before it), and the body of the pinned tree (first loop only: `pair (nat %nat_1) nat` -> two `nat_1`)
 LAYOUT_FRESH = 'bc57edfef740368a'
 LAYOUT_PINNED = 'f45adf8c82a80d26'
+
+# blind_unpack (michelson/micheline.py): the body the mirror `Impl.PyConv.blindUnpack` was made from (fixes/C12-2: a value that
+# starts with 0x05 and is not readable PACKed data goes on to the next reading whatever `unforge_micheline` raises:
+# ValueError, AssertionError, IndexError, KeyError), and the body of the pinned tree (only ValueError / AssertionError
+# suppressed: `to_python_object(try_unpack=True)` of the bytes 0x05 raises IndexError)
+BLIND_UNPACK_FALLS_BACK = '941de18a19eea18d'
+BLIND_UNPACK_PINNED = '47be26f240e58103'
 
 PAIR_LT_PINNED = ['for i, item in enumerate(self.items):\n    if item > other.items[i]:\n        return False', 'return True']
 PAIR_LT_LEX = ['for i, item in enumerate(self.items):\n    if item != other.items[i]:\n        return item < other.items[i]', 'return False']
@@ -184,6 +197,21 @@ def gen(status):
     out.append('/-- name generator of `get_type_layout`: are the generated `prim_i` names made different from every declared name')
     out.append('(`some false`: the old shape, a generated name can equal a declared one; `none`: unrecognised body)? -/')
     out.append('def generatedNamesFresh : Option Bool := ' + ('none' if fresh is None else f'some {str(fresh).lower()}'))
+
+    # ---- blind_unpack
+    bu = get_fn(tree('michelson/micheline.py'), None, 'blind_unpack')
+    falls = None
+    if bu is not None:
+        h = body_hash(bu)
+        falls = True if h == BLIND_UNPACK_FALLS_BACK else False if h == BLIND_UNPACK_PINNED else None
+    status['blind_unpack falls back on unreadable PACKed data'] = (
+        falls is True,
+        'IndexError / KeyError of unforge_micheline suppressed as well (as mirrored)' if falls
+        else 'old shape: only ValueError / AssertionError are suppressed (bytes 0x05 -> IndexError, 0x0503af -> KeyError)' if falls is False
+        else 'unrecognised body')
+    out.append('/-- `blind_unpack` goes on to the next reading whenever `unforge_micheline` fails (`some false`: the old shape, IndexError /')
+    out.append('KeyError escape; `none`: unrecognised body) -/')
+    out.append('def blindUnpackFallsBack : Option Bool := ' + ('none' if falls is None else f'some {str(falls).lower()}'))
 
     # ---- bls12_381_fr modulus
     fr = find_class(tree('michelson/types/bls.py'), 'BLS12_381_FrType')
